@@ -57,6 +57,7 @@ static C16Conf c16_conf(const RunCfg &c, int variant) {
   if (f.rotate) o += " rotate";
   if (f.usevc) o += " use-vc";
   if (!o.empty()) f.text += "options" + o + "\n";
+  if (r.chance(0.4)) f.text += r.chance(0.5) ? "sortlist 130.155.160.0/255.255.240.0 130.155.0.0\n" : "sortlist 172.16.0.0/12\n";   // (drawn last: earlier draws keep their values)
   return f;
 }
 static std::string c16_conf_text(const RunCfg &c, int variant) { return c16_conf(c, variant).text; }
@@ -137,7 +138,7 @@ void profile_cfg_more(const std::string &prof, uint64_t seed, RunCfg &c, Rng &r)
       c.beh_w = {70, 3, 2, 1, 2, 1, 5, 10, 2, 2, 1, 0, 1, 0, 0};
       if (r.chance(0.5)) c.faults = 0;
     }
-  } else if (prof == "C16") {
+  } else if (prof == "C16" || prof == "C16B") {
     c.allow_cancel_in_cb = 0;
     c.faults = 0;
     c.beh_w = {100, 0, 0, 0, 0, 0, 0, 0, 0, 0, 0, 0, 0, 0, 0};
@@ -193,6 +194,28 @@ void profile_cfg_more(const std::string &prof, uint64_t seed, RunCfg &c, Rng &r)
     if (r.chance(0.3)) c.env["LOCALDOMAIN"] = "envdom1.test envdom2.test";
     if (r.chance(0.3)) c.env["RES_OPTIONS"] = "ndots:" + std::to_string(7 + r.below(3)) + (r.chance(0.5) ? " retrans:" + std::to_string(1 + r.below(3)) : "") + (r.chance(0.5) ? " retry:" + std::to_string(1 + r.below(5)) : "") + (r.chance(0.3) ? " rotate" : "");
     c.qtypes = {1, 28};
+    if (prof == "C16B") {
+      // threaded part: the same option space, driven by two caller threads against the event thread and its reload thread
+      c.mode = 1; c.nthreads = 2;
+      static const int evs[] = {0, 2, 4, 5};
+      c.evsys = evs[r.below(4)];
+      c.sched_policy = r.chance(0.6) ? 0 : (r.chance(0.5) ? 1 : 2);
+      c.sched_preempt = 50 + (int)r.below(450);
+      c.loop_style = 0;
+      c.knobs["file_io_yields"] = 1;   // reading a configuration file is a point where the thread may lose the processor
+      c.server_source = r.chance(0.7) ? 2 : 0;   // mostly: servers come from the system configuration until the application sets them
+      c.local_dev = ""; c.local_ip4 = 0; c.local_ip6 = 0;
+      for (auto &sv : c.servers) { if (sv.ip.compare(0, 4, "fe80") == 0) sv.ip = "fd53::" + std::to_string(&sv - &c.servers[0] + 1); sv.iface = ""; if (c.server_source == 2) sv.udp_port = sv.tcp_port = 53; }
+      while (c.servers.size() < 3) { ServerSpec sv; sv.ip = "10.53.1." + std::to_string(c.servers.size() + 1); c.servers.push_back(sv); }
+      if (c.timeout_ms < 0 || c.timeout_ms > 400) c.timeout_ms = 50 + (int)r.below(300);
+      if (c.tries < 0 || c.tries > 2) c.tries = 1 + (int)r.below(2);
+      if (c.flags >= 0) c.flags &= ~(ARES_FLAG_USEVC | ARES_FLAG_NO_DFLT_SVR);
+      c.env.erase("RES_OPTIONS");
+      c.resolv_conf = c16_conf_text(c, 0);
+      if (c.resolv_conf.find("sortlist") == std::string::npos && r.chance(0.6)) c.resolv_conf += "sortlist 130.155.160.0/255.255.240.0 130.155.0.0\n";
+      // the system's own timeout/attempts options would make silent runs very long
+      for (const char *k : {" timeout:", " attempts:"}) { size_t at; while ((at = c.resolv_conf.find(k)) != std::string::npos) { size_t e = c.resolv_conf.find_first_of(" \n", at + 1); c.resolv_conf.erase(at, e - at); } }
+    }
   } else if (prof == "C14") {
     // healthy network: the only fault of a C14 run is the one failing allocation
     c.faults = 0;
@@ -483,6 +506,18 @@ bool profile_plan_more(const RunCfg &c, Rng &r, std::vector<Step> &plan) {
   if (p == "C14B") {
     gen(c, r, plan, weights({{S_REQ, 45}, {S_THINK, 20}, {S_CANCEL, 4}, {S_SETSRV, 4}, {S_REINIT, 5}, {S_WAITEMPTY, 6}, {S_QUERYINFO, 3}, {S_DUP, 4}, {S_SAVEOPT, 2}, {S_CSVROUND, 2}, {S_SORTLIST, 2}, {S_INOTIFY, 3}}), 2, 8);
     for (auto &s : plan) { s.thr = 1 + (int)r.below((uint64_t)(c.nthreads > 0 ? c.nthreads : 1)); if (s.k == S_THINK) s.a = (int64_t)r.below(300); if (s.k == S_WAITEMPTY) s.a = 1 + 3 * (int64_t)r.below(100); }
+    return true;
+  }
+  if (p == "C16B") {
+    // one thread (1) is the only one that uses the setters, so "the last value the application set" is well defined; reloads are
+    // started by both threads, by injected change notifications and by rewritten files
+    gen(c, r, plan, weights({{S_REQ, 18}, {S_THINK, 14}, {S_REINIT, 22}, {S_INOTIFY, 8}, {S_FILE, 8}, {S_SETSRV, 18}, {S_SORTLIST, 8}, {S_SAVEOPT, 2}, {S_CSVROUND, 2}}), 6, 24);
+    for (auto &s : plan) {
+      s.thr = (s.k == S_SETSRV || s.k == S_SORTLIST) ? 1 : 1 + (int)r.below(2);
+      if (s.k == S_THINK) s.a = r.chance(0.7) ? (int64_t)r.below(3) : (int64_t)r.below(300);
+      if (s.k == S_SETSRV) { static const int v[] = {2, 4, 2, 4, 1, 3, 5}; s.a = v[r.below(7)] + 6 * (int64_t)r.below(36); }   // mostly a proper subset of the configured servers
+      if (s.k == S_REQ) s.d = (s.d / R_NREACT) * R_NREACT + R_NONE;
+    }
     return true;
   }
   if (p == "C07B") {
@@ -1804,6 +1839,7 @@ static std::vector<C16Srv> c16_expected_servers(const Run &run) {
   }
   return v;
 }
+static bool g_c16_sets_only = false;   // threaded part: the public getters list servers in priority order, compare as sets
 static std::map<std::string, std::string> g_c16_user;   // settings the application has made so far (incl. setters after init)
 // (3) settings the application supplied explicitly hold after init and after every reinit
 static void c16_user_wins(Run &run, const char *when) {
@@ -1811,7 +1847,9 @@ static void c16_user_wins(Run &run, const char *when) {
   if (!c.alive) return;
   C16Snap sn; c16_snap(c.ch, sn);
   run.note("user_settings_checked");
-  if (!sn.eff.empty()) for (auto &u : g_c16_user) {
+  std::map<std::string, std::string> expect = g_c16_user;
+  for (auto &u : run.user_set_later) expect[u.first] = u.second;
+  if (!sn.eff.empty()) for (auto &u : expect) {
     auto it = sn.eff.find(u.first);
     if (it == sn.eff.end()) continue;
     if (it->second != u.second) { run.violate("C16", "user_setting_overridden", std::string(when) + ": the application set " + u.first + "=" + u.second + " but the channel now uses " + u.first + "=" + it->second + " (system files variant " + std::to_string(run.files_variant) + ")"); return; }
@@ -1820,7 +1858,7 @@ static void c16_user_wins(Run &run, const char *when) {
     std::vector<C16Srv> want = c16_expected_servers(run);
     bool had_failures = false; for (auto &e : run.srv_events) if (!e.ok) had_failures = true;
     std::vector<C16Srv> got = sn.ports;
-    if (had_failures) {   // listed in priority order once failures were recorded: compare as sets
+    if (had_failures || g_c16_sets_only) {   // listed in priority order once failures were recorded: compare as sets
       auto lt = [](const C16Srv &x, const C16Srv &y) { return std::make_tuple(x.family, x.addr, x.udp, x.tcp) < std::make_tuple(y.family, y.addr, y.udp, y.tcp); };
       std::sort(got.begin(), got.end(), lt); std::sort(want.begin(), want.end(), lt);
     }
@@ -1828,6 +1866,7 @@ static void c16_user_wins(Run &run, const char *when) {
     run.note("user_servers_checked");
   }
 }
+void c16b_end(Run &run) { c16_user_wins(run, "with the event thread, after every caller thread finished and no reload was in progress"); }
 static bool g_c16_reinit_done = false;   // the original has gone through ares_reinit() since it was initialised
 static bool c16_compare(Run &run, const char *what, const C16Snap &a, const C16Snap &b, bool all_fields, int only_mask) {
   // a = original, b = copy
@@ -2126,6 +2165,9 @@ void profile_attach_more(Run &run) {
       c16_user_wins(r, "after a step");
     };
   }
+  if (p == "C16B") {
+    run.world_ready.push_back([](Run &r) { g_c16_reinit_done = false; g_c16_sets_only = true; g_c16_user = c16_user_expect(r); r.user_set_servers = r.cfg.server_source != 2; W.file_io_yields = r.cfg.knob("file_io_yields", 0) != 0; });
+  }
   if (p == "C14") {
     run.at_end = c14_end; run.before_destroy = c14_before_destroy; run.extra_step = c14_config_steps;
     // behaviour fixed per question (not per attempt or server): a retry caused by the injected failure must meet the same
@@ -2207,6 +2249,7 @@ bool profile_nontrivial(const Run &run) {
   if (p == "C11") return !W.txs.empty() && get("callers_joined") > 0;
   if (p == "C14B") return run.cfg.knob("fail_at", -1) <= 0 ? get("callers_joined") > 0 : get("allocation_failure_delivered") > 0;
   if (p == "C07B") return !W.txs.empty() && get("think") > 0 && get("callers_joined") > 0;
+  if (p == "C16B") return get("callers_joined") > 0 && get("user_settings_checked") > 0 && get("reinit") + get("inotify_event") > 0 && get("set_servers_changed") + get("set_servers_same") + get("set_sortlist") > 0;
   if (p == "C16") return get("user_settings_checked") > 0 && (get("dup_compared") + get("save_init_compared") + get("csv_round_trip_compared") + get("reinit") > 0);
   if (p == "C17") return base && get("cookie_tx_checked") > 0 && get("server_cookie_learned") > 0;
   if (p == "C20") return base && get("differential_compared") > 0 && (W.stat.count("send_short") || W.stat.count("recv_short") || W.stat.count("send_eagain_window") || W.stat.count("recv_eagain_injected") || get("zero_length_datagram") > 0 || !W.fault_fired.empty());
@@ -2222,6 +2265,7 @@ const char *profile_rule(const std::string &prof) {
   if (prof == "C09") return "runs are seeded success/failure histories over 1..6 servers (silence, error rcodes, partitions, open/connect/receive failures), rotation on/off, failover options (retry chance 0/1/n, retry delay 0/short/long), server-list edits in flight and clock advances across the retry delay; a reference health table is driven by the public server-state callback stream and every UDP transmission must go to a server the policy allows or be a legal probe copy; non-trivial = at least one transmission was judged while some server had failures; distinct = distinct trace-shape hash";
   if (prof == "C11") return "one run = 2..4 caller threads with seeded programs (all request entry points, cancel, server-list edits, reinit, sortlist/local setters, queue wait with and without timeout, active-query count, dup, save-options, injected inotify events) against a live event thread (epoll/poll/select back ends) and its reload thread; all threads are real pthreads released one at a time by a seeded baton scheduler (continue-with-preemption-probability, PCT-style priorities or uniform), blocking and timed waits are virtual; non-trivial = traffic reached the virtual network and all caller programs ran to completion; distinct = distinct hash of (call/shape trace, scheduling decisions)";
   if (prof == "C14B") return "as C14, with the library's event thread: a scenario is a seeded short threaded program (event thread on epoll/poll/select, 1..2 caller threads issuing requests, cancel, server-list edits, reinit incl. via injected inotify events, queue waits, dup) under the baton scheduler; it is executed once failure-free to count N allocator calls and once per failing index in its own process; non-trivial = the failure was delivered; distinct = distinct hash of (trace shape, scheduling decisions)";
+  if (prof == "C16B") return "threaded part of C16: the C16 option space (every option independently set or left to the system; servers from the system configuration in 70 % of runs) on a channel with the event thread; two caller threads run seeded programs of ares_reinit, rewritten resolv.conf + injected change notifications (which make the event thread start the reload thread), ares_set_servers_ports_csv / ares_set_sortlist (one thread only, so the last application value is defined), requests and think times of 0..300 ms; all threads are real pthreads under the seeded baton scheduler, configuration-file reads are scheduling points; at the end, with no reload in progress, every setting the application made (at init or through a setter, at any time relative to the reloads) must be the one in force; non-trivial = at least one reload and one setter ran and the final comparison was made; distinct = distinct hash of (call/shape trace, scheduling decisions)";
   if (prof == "C07B") return "one run = 1..2 caller threads issuing requests separated by virtual think times from 0 ms to 70 s against the library's own event thread (each back end), with connections fresh, idle-kept-open (STAYOPEN) or busy and servers that answer or stay silent; no application action besides the requests; the run must end with every request completed within its retry budget and never reach scheduler quiescence with a request outstanding; non-trivial = traffic, at least one think time, programs completed; distinct = distinct hash of (call/shape trace, scheduling decisions)";
   if (prof == "C16") return "runs are seeded option masks and values (each option independently set or left to the system), server sets (IPv4/IPv6/link-local, default/equal/differing ports) given through one of five encodings, sortlists, domains, and virtual resolv.conf/nsswitch/environment contents that disagree with every user-set field; plans interleave traffic with ares_dup, save-options -> init-options, get-servers-csv -> set on a fresh channel, rewrites of the system files and ares_reinit, explicit setters; non-trivial = the user-settings invariant was evaluated and at least one copy/round-trip/reinit happened; distinct = distinct trace-shape hash";
   if (prof == "C14") return "a scenario is a seeded short plan (channel init with options and system files, 1..8 requests of all kinds driven to completion against a healthy network, cache hits, server-list edits, reinit, cancel, dup, save-options, destroy); it is executed once without failure to count its N allocator calls and then once per n in 1..N with exactly the n-th allocation failing (quick tier: at most --max-subs evenly spread n per scenario); evaluations counts executions; non-trivial = the injected failure was actually delivered; distinct = distinct trace-shape hash";
